@@ -99,10 +99,20 @@ def pred_result(table, name):
     return ('yes',) if name in table.get('yes', []) else ('no',)
 
 
-def callable_of_table(table):
+FEATURES = {}
+
+
+def feature(name):
+    FEATURES[name] = FEATURES.get(name, 0) + 1
+
+
+def callable_of_table(table, field='pred'):
     def pred(exc):
         r = pred_result(table, canon_exc(exc))
-        if r[0] == 'raises': raise make_exc(r[1])
+        if r[0] == 'raises':
+            feature('branch:%s-callable-raised' % field)
+            raise make_exc(r[1])
+        feature('branch:%s-callable-%s' % (field, r[0]))
         return r[0] == 'yes'
     return pred
 
@@ -139,6 +149,7 @@ class Real(object):
                 n = self.ncommit; self.ncommit += 1; self.dirty = False
                 if n < len(self.fail) and self.fail[n] is not None:
                     ev['c18_injected'] = True
+                    feature('branch:commit-fault-injected')
                     raise sqlite3.OperationalError('injected commit fault')
 
     def rows(self):
@@ -170,7 +181,7 @@ class Real(object):
             form = o.get('_%s_form' % field, 'default')
             if form == 'list': kw[kwname] = [LISTABLE[n] for n in o['_%s_classes' % field]]
             elif form == 'tuple': kw[kwname] = tuple(LISTABLE[n] for n in o['_%s_classes' % field])
-            elif form == 'callable': kw[kwname] = callable_of_table(o[field])
+            elif form == 'callable': kw[kwname] = callable_of_table(o[field], field)
         try: return db_session(**kw)
         except TypeError as e: raise InvalidConfig(str(e))
 
@@ -194,6 +205,7 @@ class Real(object):
         if k == 'with':
             session = self.opts(p['o'])
             nested = core.local.db_context_counter > 0
+            feature('branch:with-nested' if nested else 'branch:with-top')
             with session:
                 try: self.run(p['p'])
                 finally: m = self.tr.mark()
@@ -205,6 +217,7 @@ class Real(object):
                 i = n[0]; n[0] += 1
                 self.run(bodies[min(i, len(bodies) - 1)])
             p['_executions'] = n
+            feature('branch:%s-%s' % (k, 'nested' if core.local.db_context_counter > 0 else 'top'))
             if k == 'call': f = self.opts(p['o'])(body)
             else: f = self.plugin.apply(body, None)
             f()
@@ -225,8 +238,10 @@ class Real(object):
                 if canon_exc(e) == 'genBadOption': raise
                 raise InvalidConfig(str(e))
             it = wrapped(); self.keep.append(it)
+            feature('branch:iter-%s' % ('nested' if core.local.db_context_counter > 0 else 'top'))
             for st in steps:
                 r = st.get('resume', 'next')
+                feature('branch:gen-resume-%s' % (r if isinstance(r, str) else 'throw'))
                 try:
                     if r == 'next': next(it)
                     elif r == 'close':
@@ -238,6 +253,7 @@ class Real(object):
             return
         if k == 'flask':
             token = flask_stub.request.push()           # a new request context
+            feature('branch:flask-%s-%s' % ('hooked' if p.get('hooked', True) else 'unhooked', 'nested' if core.local.db_context_counter > 0 else 'top'))
             try:
                 exc = None
                 try:
@@ -647,6 +663,31 @@ def grid(ctx, rng):
     return cases
 
 
+def gen_grid(ctx, rng):
+    """wrapped generators: every (manual commit, late writes, end, next resume) shape of a first segment followed by a
+    second segment, with and without commit faults, at top level and inside another session"""
+    cases = []
+    ends = ['yield', 'ret', {'raise': 'u0'}, {'raise': 'u3'}]
+    resumes = ['next', 'close', {'throw': 'u1'}, {'throw': 'u5'}]
+    faults = [[], ['u100'], [None, 'u100'], ['u100', 'u100']]
+    combos = list(itertools.product([False, True], [[], [3]], ends, resumes, [False, True], ends, faults))
+    if not ctx.thorough: combos = rng.sample(combos, 160)
+    for mc1, late1, fin1, res2, mc2, fin2, cf in combos:
+        o = {'sid': next(SID)}
+        o.update(mk_pred(rng, 'allowed', rng.choice(['default', 'list']), classes=['U0']))
+        o.update(mk_pred(rng, 'retryable', 'default'))
+        steps = [{'writes': [1, 2], 'commit': mc1, 'late': late1, 'fin': fin1, 'resume': 'next'},
+                 {'writes': [11], 'commit': mc2, 'late': [], 'fin': fin2, 'resume': res2},
+                 {'writes': [21], 'commit': False, 'late': [], 'fin': 'ret', 'resume': 'next'}]
+        prog = {'k': 'iter', 'o': o, 'steps': steps}
+        env = {'should_retry': SHOULD_RETRY, 'tx': TX, 'commit_fail': cf}
+        cases.append({'prog': prog, 'env': env})
+        if rng.random() < 0.15:
+            o2 = {'sid': next(SID)}; o2.update(mk_pred(rng, 'allowed', 'default')); o2.update(mk_pred(rng, 'retryable', 'default'))
+            cases.append({'prog': {'k': 'with', 'o': o2, 'p': seq({'k': 'write', 'w': 5}, prog)}, 'env': env})
+    return cases
+
+
 def setup_globals():
     global REDIRECT
     REDIRECT = [x for x in UNIVERSE if bottle_plugin.is_allowed_exception(make_exc(x))]
@@ -667,11 +708,13 @@ def run(ctx):
     fixed.append(scripted('bottle', dict(o0), 1, [], ['u7']))         # abort: rolled back
     run_cases(ctx, real, fixed, 'fixed')
     run_cases(ctx, real, grid(ctx, rng), 'grid')
+    run_cases(ctx, real, gen_grid(ctx, rng), 'generator-grid')
     n = ctx.scale(700, 12000)
     cases = []
     for _ in range(n):
         cases.append({'prog': rand_prog(rng, rng.choice([1, 2, 2, 3, 3, 4])), 'env': rand_env(rng, 0.3)})
     run_cases(ctx, real, cases, 'random')
+    for k, v in sorted(FEATURES.items()): ctx.count(k, v)
     ctx.extra['exception_universe'] = UNIVERSE
     ctx.extra['bottle_allowed'] = REDIRECT
 
